@@ -99,6 +99,12 @@ impl Check for RequestDelivery {
     type Case = DeliveryCase;
     const NAME: &'static str = "request_delivery";
 
+    fn normalise(mut case: DeliveryCase) -> DeliveryCase {
+        case.defs = crate::props::world::normalise_defs(case.defs, true);
+        case
+    }
+
+
     fn strategy(tier: Tier) -> BoxedStrategy<DeliveryCase> {
         let max = match tier {
             Tier::Quick => 25,
